@@ -14,6 +14,7 @@ import (
 	"github.com/goatcms/goatcore/app/modules/commonm/commservices/mutex"
 	"github.com/goatcms/goatcore/zzverif/vsched"
 
+	"verif/checks/c14"
 	"verif/explore"
 	"verif/fw"
 )
@@ -220,6 +221,26 @@ func run(c *fw.Ctx) {
 			c.Sample(map[string]interface{}{"holders": sp.Holders, "bound": sp.Bound})
 		}
 	}
+	runRunner(c)
+}
+
+// runRunner: the task runner is the lock's main client (anchored in runner.go): programs that combine
+// wait lists with named locks, through the whole-application harness of C14.
+func runRunner(c *fw.Ctx) {
+	ps := c14.LockWaitPrograms(c.Thorough())
+	c.R.Info["runner_programs"] = len(ps)
+	for i, sp := range ps {
+		if !c.Mine(2000003 + i) {
+			continue
+		}
+		if c.Expired() {
+			c.NotExhaustive("deadline in the runner part")
+			return
+		}
+		if !explore.RunProgram(c, c14.MkProgramFor("C15", sp)) && c.R.InfraError != "" {
+			return
+		}
+	}
 }
 
 func maxi(a, b int) int {
@@ -230,6 +251,14 @@ func maxi(a, b int) int {
 }
 
 func replay(wj json.RawMessage) (*fw.Violation, error) {
+	var rw struct {
+		Program string    `json:"program"`
+		Spec    c14.Spec  `json:"spec"`
+		Choices []int     `json:"choices"`
+	}
+	if err := json.Unmarshal(wj, &rw); err == nil && strings.HasPrefix(rw.Program, "runner: ") {
+		return explore.ReplayProgram(c14.MkProgramFor("C15", rw.Spec), rw.Choices)
+	}
 	var w struct {
 		Spec    Spec  `json:"spec"`
 		Choices []int `json:"choices"`
@@ -269,7 +298,7 @@ func replay(wj json.RawMessage) (*fw.Violation, error) {
 
 func init() {
 	fw.Register(&fw.Check{ID: "C15", Level: "model_checking",
-		Rule: "programs = every unordered pair (36) and triple of holders with lock maps over resources {a,b} (absent/R/W per resource, non-empty; quick: triples with >=5 lock entries, thorough: all 120); holder = Lock(map), enter, scheduling point, exit, Unlock; every schedule with <=3/2 (quick) or <=5/3 (thorough) preemptions, the iteration order of the lock map inside Lock being an additional explored choice; oracle: no two conflicting holders inside at once, every compatible pair overlaps in at least one explored execution, no deadlock. states = distinct schedule traces",
+		Rule: "programs = every unordered pair (36) and triple of holders with lock maps over resources {a,b} (absent/R/W per resource, non-empty; quick: triples with >=5 lock entries, thorough: all 120); holder = Lock(map), enter, scheduling point, exit, Unlock; every schedule with <=3/2 (quick) or <=5/3 (thorough) preemptions, the iteration order of the lock map inside Lock being an additional explored choice; oracle: no two conflicting holders inside at once, every compatible pair overlaps in at least one explored execution, no deadlock; plus the lock's main client: 3 programs that combine the task runner's wait lists with named write/read locks (a task blocked on its wait list must not hold its resources), driven through the whole-application harness of C14 under every schedule with free context switches at blocking points. states = distinct schedule traces",
 		Run: run, Replay: replay,
 		Assumptions: []string{"2 resources, 2-3 holders; Go's RWMutex writer preference is modelled by the shim (announced writer blocks later readers)"}})
 }
